@@ -163,6 +163,7 @@ def insert_driver(u):
     post = [
         ("C07.frame", "atomic_inv(*final(w))"),
         ("C01.unique", "alloc_inv(*final(w), CFG, old(w).counter)"),
+        ("C03.splice,C07.frame", "content_inv(*final(w), CFG)"),
         ("C01.nowrap", "old(w).counter <= final(w).counter <= u32::MAX"),
         ("C18.edit,C08.fail,C17.skip", "res.is_none() ==> final(w).stop_seen"),
         ("C08.fail,C17.skip", "res.is_some() && !res.unwrap().failure ==> all_edited(*final(w), CFG, final(w).files.len() as int)"),
@@ -186,8 +187,9 @@ def insert_driver(u):
         ("C18.edit", "w.stop_seen == old(w).stop_seen"),
         ("C01.nowrap", "1 <= start <= w.counter <= u32::MAX"),
         ("C01.unique", "alloc_inv(*w, cfg, start)"),
+        ("C03.splice,C07.frame", "content_inv(*w, cfg)"),
         # files not yet visited are exactly as at the start of the run
-        ("C01.unique,C07.frame", "forall|i: int| it.index@ <= i < files.len() ==> w.fs[#[trigger] files[i]] == w.orig[files[i]] && !w.intended.dom().contains(files[i]) && !w.alloc.dom().contains(files[i])"),
+        ("C03.splice,C07.frame", "forall|i: int| it.index@ <= i < files.len() ==> w.fs[#[trigger] files[i]] == w.orig[files[i]] && !w.intended.dom().contains(files[i]) && !w.alloc.dom().contains(files[i])"),
         ("C07.intended", "forall|p: Seq<char>| w.intended.dom().contains(p) ==> w.protected.contains(p)"),
         ("C08.fail", "!any_failure(all_map_results@) ==> all_edited(*w, cfg, it.index@)"),
         ("C05.count", "!any_failure(all_map_results@) ==> sum_inserted(all_map_results@) == tree_missing(files, w.orig, cfg, it.index@)"),
@@ -279,6 +281,7 @@ def generate_code(u):
         ("C07.frame", "atomic_inv(*final(w))"),
         # every ID written is one of alloc[p] .. alloc[p]+n(p) of a replaced file; ranges are disjoint and lie in 1 ..= u32::MAX
         ("C01.unique", "alloc_inv(*final(w), %s, 1)" % cfg),
+        ("C03.splice,C07.frame", "content_inv(*final(w), %s)" % cfg),
         ("C01.nowrap", "forall|p: Seq<char>| #[trigger] final(w).alloc.dom().contains(p) ==> final(w).alloc[p] + n_of(*final(w), %s, p) <= u32::MAX" % cfg),
         # with a lock the first ID is the lock's value; without one every new ID is greater than every existing one
         ("C01.unique", "context.cached_next_reference_id.is_some() ==> forall|p: Seq<char>| #[trigger] final(w).alloc.dom().contains(p) ==> final(w).alloc[p] >= context.cached_next_reference_id.unwrap()"),
@@ -298,7 +301,7 @@ def generate_code(u):
     f.insert_at(s0, "let ghost wpre = *w;\n    ")
     f.insert_at(ob + 1, " proof { assert(w.fs == wpre.fs);"
                 " assert forall|p: Seq<char>| w.protected.contains(p) implies w.fs.dom().contains(p) && w.orig.dom().contains(p) by {}"
-                " assert(atomic_inv(*w)); assert(alloc_inv(*w, %s, 1)); }" % cfg)
+                " assert(atomic_inv(*w)); assert(alloc_inv(*w, %s, 1)); assert(content_inv(*w, %s)); }" % (cfg, cfg))
     f.before_stmt("return Ok(0);", "proof { lemma_all_edited_when_none_missing(*w, %s); }\n                    " % cfg)
     return f
 
